@@ -310,6 +310,14 @@ def search_first_match(rep, lua, mods, rule="SEARCH"):
                 f = lua.globals[name][1]
                 pname = f["params"][preds[0]] if preds[0] < len(f["params"]) else None
                 tests = []
+                # locals that hold the predicate's verdict (`local hit = p(x)`)
+                verdicts = set()
+                for st in luaparse.walk(f["body"]):
+                    if st.get("k") == "Local":
+                        for i_, nm in enumerate(st["names"]):
+                            if i_ < len(st["es"]) and any(c.get("k") == "Call" and c["f"].get("k") == "Name" and c["f"]["name"] == pname
+                                                          for c in luaparse.walk(st["es"][i_])):
+                                verdicts.add(nm)
                 for lp in luaparse.walk(f["body"]):
                     if lp.get("k") not in ("ForIn", "ForNum", "While", "Repeat"):
                         continue
@@ -317,7 +325,8 @@ def search_first_match(rep, lua, mods, rule="SEARCH"):
                         if x.get("k") != "If":
                             continue
                         for cond, blk in x["clauses"]:
-                            if any(c.get("k") == "Call" and c["f"].get("k") == "Name" and c["f"]["name"] == pname for c in luaparse.walk(cond)):
+                            if any((c.get("k") == "Call" and c["f"].get("k") == "Name" and c["f"]["name"] == pname) or
+                                   (c.get("k") == "Name" and c.get("name") in verdicts) for c in luaparse.walk(cond)):
                                 tests.append((x, blk))
                 n += 1
                 if not tests:
